@@ -75,7 +75,7 @@ type caAnswer struct {
 	Stats   []caStat  `json:"stats"`
 	Dropped []uint64  `json:"dropped"`
 	Code    int       `json:"code"`
-	Mutated bool      `json:"mutated"` // the query changed the lists the discovery handed out
+	Mutated bool      `json:"mutated"`         // the query changed the lists the discovery handed out
 	Other   string    `json:"other,omitempty"` // anything in the answer the projection has no place for
 }
 
